@@ -630,4 +630,176 @@ theorem dropped_exchange_closed {n : Node} (hr : Reach n) :
     CloserSpec n.t (step n .closer).1.t (n.t.sweepDropped n.now).2 :=
   closer_effect (inv_reach hr).tinv n.now
 
+/-! ## Traffic of the other exchanges keeps flowing -/
+
+/-- **Other exchanges progress** (every reachable state with a free RX slot — which
+`unclaimed_discarded_within` / `slot_always_freeable` provide): a fresh message (not a standalone
+ack, not `CloseSession`) for ANY exchange that is owned by a live `Exchange` and not waiting for an
+acknowledgement is kept in the slot for exactly that exchange, and the exchange's `recv` returns it —
+whatever the other exchanges of the node are doing (dropped, accept-timed-out, stalled). -/
+theorem other_exchanges_progress {n : Node} (hr : Reach n) (hw : n.t.nextUid < 0x0fffffff) (hrx : n.rx = none)
+    {s : Sess} (hs : s ∈ n.t.sessions) {i : Nat} {e : Exch} (he : s.slot i = some e)
+    (hown : RoleSt.isOwned e.role = true) (hnr : e.mrp.retrans = none) (m : Msg) (rnd : Nat)
+    (hf : s.isForRx m.port m.sid = true) (hfor : e.isForRx m.hdr = true)
+    (hk1 : m.kind ≠ .sack) (hk2 : m.kind ≠ .close)
+    (hfresh : (Dedup.postRecv s.rx m.ctr s.mode.enc false).2 = true) :
+    (step n (.arrive m rnd)).2 = .kept s.uid i false ∧
+    (step (step n (.arrive m rnd)).1 (.recv s.uid i)).2 = .delivered s.uid i m ∧
+    (step (step n (.arrive m rnd)).1 (.recv s.uid i)).1.rx = none := by
+  have hi := inv_reach hr
+  obtain ⟨harr, m', hsl, hm'⟩ := arrive_owner_eval hi hrx hs he hnr m rnd hf hfor hk1 hk2 hfresh
+  have hi1 : Inv (step n (.arrive m rnd)).1 := inv_step hi hw _
+  have hstep : step n (.arrive m rnd) = arrive n m rnd := rfl
+  rw [hstep, harr] at hi1 ⊢
+  refine ⟨rfl, ?_⟩
+  obtain ⟨ht1, hm1⟩ := get_tinv hi.tinv hs n.now
+  have hsame := (postRecv_same (touch s n.now) m.hdr n.now (ht1.nExch _ hm1)).1
+  have hy : ((touch s n.now).postRecv m.hdr n.now).1 ∈
+      ((n.t.setSess (touch s n.now)).setSess ((touch s n.now).postRecv m.hdr n.now).1).sessions :=
+    mem_setSess_self ht1.uidN hm1 hsame.uid
+  have hyf : ((touch s n.now).postRecv m.hdr n.now).1.isForRx m.port m.sid = true := by
+    rw [hsame.isForRx, (touch_same s n.now).isForRx]; exact hf
+  have hfire := recv_fires hi1 (r := { m := m, arrivedAt := n.now }) rfl hy hyf hsl hfor hown
+    (by simp [Mrp.isRetransPending, hm'])
+  have hu : ((touch s n.now).postRecv m.hdr n.now).1.uid = s.uid := hsame.uid
+  rw [hu] at hfire
+  exact hfire
+
+/-! ## Non-vacuity: concrete histories -/
+
+def exMa : Msg := { port := 11, sid := 0, ctr := 5, exch := 7, initiator := true, kind := .newSess }
+def exMb : Msg := { port := 22, sid := 0, ctr := 9, exch := 7, initiator := true, kind := .newSess }
+def exMa2 : Msg := { port := 11, sid := 0, ctr := 6, exch := 7, initiator := true, kind := .other }
+
+/-- two peers, two unsecured sessions, the SAME exchange id: each message reaches the exchange of its
+own session only (`recv` of the other one stays blocked) — the situation of seeded change C10-a -/
+def exOpsAB : List Op := [.arrive exMa 100, .accept, .recv 0 0, .arrive exMb 200, .recv 0 0, .accept, .recv 1 0,
+  .arrive exMa2 0, .recv 1 0, .recv 0 0]
+
+example : (run {} exOpsAB).2 =
+    [.kept 0 0 true, .accepted 0 0, .delivered 0 0 exMa, .kept 1 0 true, .blocked, .accepted 1 0,
+     .delivered 1 0 exMb, .kept 0 0 false, .blocked, .delivered 0 0 exMa2] := by decide
+
+/-- `delivered_only_to_owner_run` instantiated on the reachable state before the last step above -/
+example : ownerOf (run {} (exOpsAB.take 9)).1.t exMa2 = some (0, 0) :=
+  (delivered_only_to_owner_history 0 (exOpsAB.take 9) (by decide) (uid := 0) (idx := 0) (m := exMa2) (by decide)).1
+
+/-- an unclaimed first message: nothing happens 999 ms after its arrival, at 1000 ms the accept sweep
+discards it and marks the exchange dropped, the closer then frees the slot and writes the ack it owes;
+a second run of the closer finds nothing -/
+example : (run {} [.arrive exMa 100, .tick 999, .sweepAccept, .sweepOrphan, .tick 1, .sweepAccept, .closer, .closer]).2 =
+    [.kept 0 0 true, .ok, .swept false, .swept false, .ok, .swept true,
+     .closer (.closedExchange 0 0 7 (some (100, 5))), .closer .nothing] := by decide
+
+/-- a reachable state with an accept-pending exchange: the hypotheses of `pending_has_message`,
+`slot_always_freeable` (case b), `accept_pending_is_stamped` are satisfiable -/
+example : Reach (run {} [.arrive exMa 100, .tick 5]).1 ∧
+    (run {} [.arrive exMa 100, .tick 5]).1.rx = some { m := exMa, arrivedAt := 0 } ∧
+    ((run {} [.arrive exMa 100, .tick 5]).1.t.sessions.map (fun s => s.exchs.map (fun o => o.map (·.role)))) = [[some .rp]] :=
+  ⟨reach_run (Reach.init 0) _ (by decide), by decide, by decide⟩
+
+/-- a reachable state with a dropped exchange that owes an ack (hypotheses of `closer_acts_when_dropped`),
+and one whose session must be closed because a retransmission is pending -/
+example : ((run {} [.arrive exMa 100, .accept, .recv 0 0, .dropEx 0 0]).1.t.sessions.map
+      (fun s => s.exchs.map (fun o => o.map (·.role)))) = [[some .rd]] ∧
+    (run {} [.arrive exMa 100, .accept, .recv 0 0, .dropEx 0 0, .closer]).2.getLast? =
+      some (.closer (.closedExchange 0 0 7 (some (100, 5)))) ∧
+    (run {} [.arrive exMa 100, .accept, .recv 0 0, .send 0 0 true, .dropEx 0 0, .closer]).2.getLast? =
+      some (.closer (.closedSession 0 1 101)) := by decide
+
+/-- the owner's message is orphaned when its session is removed: the orphan sweep discards it (case a) -/
+example : (run {} [.arrive exMa 100, .accept, .removeSess 0, .sweepAccept, .sweepOrphan]).2 =
+    [.kept 0 0 true, .accepted 0 0, .ok, .swept false, .swept true] := by decide
+
+/-- `other_exchanges_progress` on a concrete state: session 0's exchange was dropped with an ack
+pending (and waits for the closer), session 1's owned exchange still gets its message -/
+example : (run {} [.arrive exMa 100, .accept, .recv 0 0, .arrive exMb 200, .accept, .recv 1 0, .dropEx 0 0,
+      .arrive { exMb with ctr := 10, kind := .other } 0, .recv 1 0]).2.drop 6 =
+    [.ok, .kept 1 0 false, .delivered 1 0 { exMb with ctr := 10, kind := .other }] := by decide
+
+/-! ### a fair infinite run with an unclaimed message -/
+
+def fairM : Msg := { port := 11, sid := 0, ctr := 5, exch := 7, initiator := true, kind := .newSess }
+def fairT0 : Table := { nextUid := 1, nextSid := 1, nextExch := 1, sessions := [] }
+def fairX0 : Held := { m := fairM, arrivedAt := 0 }
+def fairOp (k : Nat) : Op := if k % 3 = 0 then .tick 25 else if k % 3 = 1 then .sweepAccept else .sweepOrphan
+def fairSt (k : Nat) : Node := { t := fairT0, rx := if k ≤ 2 then some fairX0 else none, now := 25 * ((k + 2) / 3) }
+
+theorem fairSt0 : fairSt 0 = (run {} [.arrive fairM 100, .removeSess 0]).1 := by decide
+
+theorem fairNext (k : Nat) : fairSt (k + 1) = (step (fairSt k) (fairOp k)).1 := by
+  have h3 : k % 3 = 0 ∨ k % 3 = 1 ∨ k % 3 = 2 := by omega
+  rcases h3 with h | h | h
+  · have : fairOp k = .tick 25 := by simp [fairOp, h]
+    rw [this]
+    have h1 : (k + 1 + 2) / 3 = (k + 2) / 3 + 1 := by omega
+    by_cases hk : k ≤ 2
+    · have hk2 : k + 1 ≤ 2 := by omega
+      simp [step, fairSt, h1, hk, hk2, Nat.mul_add]
+    · have hk2 : ¬ (k + 1 ≤ 2) := by omega
+      simp [step, fairSt, h1, hk, hk2, Nat.mul_add]
+  · have : fairOp k = .sweepAccept := by simp [fairOp, h]
+    rw [this]
+    have h1 : (k + 1 + 2) / 3 = (k + 2) / 3 := by omega
+    by_cases hk : k ≤ 2
+    · have hk2 : k + 1 ≤ 2 := by omega
+      simp [step, fairSt, h1, hk, hk2, sweepAccept, Table.sweepAccept, Table.getForRx, fairT0]
+    · have hk2 : ¬ (k + 1 ≤ 2) := by omega
+      simp [step, fairSt, h1, hk, hk2, sweepAccept]
+  · have : fairOp k = .sweepOrphan := by simp [fairOp, h]
+    rw [this]
+    have h1 : (k + 1 + 2) / 3 = (k + 2) / 3 := by omega
+    have hk2 : ¬ (k + 1 ≤ 2) := by omega
+    by_cases hk : k ≤ 2
+    · simp [step, fairSt, h1, hk, hk2, sweepOrphan, Table.sweepOrphan, Table.getForRx, fairT0]
+    · simp [step, fairSt, h1, hk, hk2, sweepOrphan]
+
+def fairRun : Run where
+  st := fairSt
+  op := fairOp
+  next := fairNext
+  reach0 := by rw [fairSt0]; exact reach_run (Reach.init 0) _ (by decide)
+  noWrap := fun _ => show (1 : Nat) < 0x0fffffff by decide
+
+theorem fairRun_fair : SweepFair fairRun 50 50 := by
+  constructor
+  · intro k
+    have h3 : k % 3 = 0 ∨ k % 3 = 1 ∨ k % 3 = 2 := by omega
+    rcases h3 with h | h | h
+    · refine ⟨k + 1, by omega, (by have e1 : (k + 1) % 3 = (k % 3 + 1) % 3 := by omega
+                                   simp [fairRun, fairOp, e1, h]), ?_⟩
+      show 25 * ((k + 1 + 2) / 3) ≤ 25 * ((k + 2) / 3) + 50
+      omega
+    · refine ⟨k, by omega, by simp [fairRun, fairOp, h], by omega⟩
+    · refine ⟨k + 2, by omega, (by have e1 : (k + 2) % 3 = (k % 3 + 2) % 3 := by omega
+                                   simp [fairRun, fairOp, e1, h]), ?_⟩
+      show 25 * ((k + 2 + 2) / 3) ≤ 25 * ((k + 2) / 3) + 50
+      omega
+  · intro k
+    have h3 : k % 3 = 0 ∨ k % 3 = 1 ∨ k % 3 = 2 := by omega
+    rcases h3 with h | h | h
+    · refine ⟨k + 2, by omega, (by have e1 : (k + 2) % 3 = (k % 3 + 2) % 3 := by omega
+                                   simp [fairRun, fairOp, e1, h]), ?_⟩
+      show 25 * ((k + 2 + 2) / 3) ≤ 25 * ((k + 2) / 3) + 50
+      omega
+    · refine ⟨k + 1, by omega, (by have e1 : (k + 1) % 3 = (k % 3 + 1) % 3 := by omega
+                                   simp [fairRun, fairOp, e1, h]), ?_⟩
+      show 25 * ((k + 1 + 2) / 3) ≤ 25 * ((k + 2) / 3) + 50
+      omega
+    · refine ⟨k, by omega, by simp [fairRun, fairOp, h], by omega⟩
+
+theorem fairRun_diverges : TimeDiverges fairRun := by
+  intro T
+  refine ⟨3 * T, ?_⟩
+  show T ≤ 25 * ((3 * T + 2) / 3)
+  omega
+
+/-- non-vacuity of `unclaimed_discarded_within`: all its hypotheses hold together on a concrete infinite
+run — the message of a session that was removed waits in the RX slot, the scheduler repeats
+(25 ms pass, accept sweep, orphan sweep) for ever, nobody owns the message -/
+example : ∃ j, 0 ≤ j ∧ (fairRun.st (j + 1)).rx = none ∧
+    (fairRun.st j).now ≤ max (fairRun.st 0).now (fairX0.arrivedAt + Consts.acceptTimeoutMs) + 50 + 50 :=
+  unclaimed_discarded_within fairRun fairRun_fair fairRun_diverges (k := 0) (x := fairX0) rfl
+    (fun j _ _ ⟨s, hs, _⟩ => by simp [fairRun, fairSt, fairT0] at hs)
+
 end C10
